@@ -1,12 +1,12 @@
 PROP = dict(
     id='C07', level='exploration',
-    pyvc=[],
+    pyvc=['contracts.c07'],
     finite=['finite.lalr:oal_precedence'],
     bounded='bounded.c07',
     bounded_budget=dict(quick=45, thorough=420),
     assumptions=[],
     trusted_base=['z3 5.1 / cvc5 1.0.3', 'pyvc symbolic executor and its encoding of Python (DESIGN.md section 2.3)', 'CPython 3.12, PLY 3.11 (A-PLY)'],
-    manifest=dict(text='Finite core (tier F, 261 obligations): the LALR(1) table regenerated from the grammar resolves every operator pair as the precedence table of the property demands. Bounded: print->parse round trip on all operator structures of depth <=2, all 16^3 binary chains, sampled deeper trees, every statement production with random layout, comments and optional words.',
+    manifest=dict(text='Finite core (tier F, 261 obligations): the LALR(1) table regenerated from the grammar resolves every operator pair as the precedence table of the property demands. Deductive core (tier P, 18 obligations): the binary, unary and parenthesised expression productions build the tree that mirrors the production (left operand left, operator as written, parentheses add no node). Bounded: print->parse round trip on all operator structures of depth <=2, all 16^3 binary chains, sampled deeper trees, every statement production with random layout, comments and optional words.',
                   note='PLY driver (A-PLY); identifiers and literals lex as single tokens.',
-                  technique='bounded stand-in (run-time contracts on the real functions driven by small-scope enumeration; labelled bounded, never counted as proved) decides the property sentence; finite-state obligations decided exactly on the LALR(1) table / token regular expressions regenerated from the current source, reported separately as tier F'),
+                  technique='bounded stand-in (run-time contracts on the real functions driven by small-scope enumeration; labelled bounded, never counted as proved) decides the property sentence; finite-state obligations decided exactly on the LALR(1) table / token regular expressions regenerated from the current source, reported separately as tier F; contract-based deductive verification (pyvc) of the actions of the expression productions, reported separately as tier P'),
 )
